@@ -3,6 +3,7 @@ import Driver.ExecDrv
 import Driver.BufDrv
 import Driver.RunDrv
 import Driver.LoopDrv
+import Driver.ParseDrv
 open Pushr
 
 def handleLine (line : String) : String :=
@@ -10,6 +11,8 @@ def handleLine (line : String) : String :=
   | some [.list (.atom kind :: rest)] =>
     match kind with
     | "stackop" => StackDrv.handle rest
+    | "parse" => ParseDrv.handleParse rest
+    | "roundtrip" => ParseDrv.handleRoundtrip rest
     | "loop" => LoopDrv.handle rest
     | "run" => RunDrv.handle rest
     | "bufseq" => BufDrv.handle rest
